@@ -163,6 +163,13 @@ void clientSendNext(Client* c) {
   c->recIdx.push_back(static_cast<int>(g_rd->cmds.size()));
   g_rd->cmds.push_back(rec);
   std::string bytes = cmd.text + (c->http ? "" : cmd.lineEnd);
+  // a client that gives up: only the first 'abort' bytes are sent, then the connection is closed from its side
+  bool aborting = cmd.line.has("abort");
+  if (aborting) {
+    size_t k = static_cast<size_t>(cmd.line.num("abort"));
+    if (k < bytes.size()) bytes.resize(k);
+    sim::count("fault.client_abort");
+  }
   // chunks
   std::vector<size_t> cuts = cmd.cuts;
   cuts.push_back(bytes.size());
@@ -178,6 +185,11 @@ void clientSendNext(Client* c) {
     t += cmd.gapUs * US;
   }
   c->sendIdx++;
+  if (aborting) {
+    Client* cc = c;
+    sim::eventAfter(t + static_cast<int64_t>(cmd.line.num("abortwait", 0)) * US, [cc, s]() { s->eof = true; cc->closed = true; cc->done = true; });
+    return;
+  }
   if (cmd.pipeline && c->sendIdx < c->cmds.size()) {
     Client* cc = c;
     sim::eventAfter(t + 100 * US, [cc]() { clientSendNext(cc); });
